@@ -83,6 +83,42 @@ theorem function_name_error (s : Scheme) (e : LExpr) (name : List Char) (i : Nat
     astUses s e name = none ∧ astUsesList s e name = none :=
   unknown_name_error s e name (getField_none_of_func s name i h)
 
+/-! ### Structural laws (every tree): the answer is the disjunction over children, and
+parentheses / `not` are transparent. -/
+
+theorem mem_fieldsLs (f : Nat) (es : List LExpr) :
+    f ∈ fieldsLs es ↔ ∃ e ∈ es, f ∈ fieldsL e := by
+  induction es with
+  | nil => simp [fieldsLs]
+  | cons a as ih => simp [fieldsLs, ih]
+
+/-- a chain `a op b op …` uses a field exactly when one of its operands does (in any
+position, not only the first) -/
+theorem uses_combining (f : Nat) (op : LogicalOp) (es : List LExpr) :
+    usesL f false (.combining op es) = true ↔ ∃ e ∈ es, usesL f false e = true := by
+  rw [uses_iff_mem]
+  simp only [uses_iff_mem, fieldsL]
+  exact mem_fieldsLs f es
+
+theorem uses_paren (f : Nat) (e : LExpr) : usesL f false (.paren e) = usesL f false e := by
+  apply Bool.eq_iff_iff.mpr
+  rw [uses_iff_mem, uses_iff_mem]; simp [fieldsL]
+
+theorem uses_not (f : Nat) (e : LExpr) : usesL f false (.unaryNot e) = usesL f false e := by
+  apply Bool.eq_iff_iff.mpr
+  rw [uses_iff_mem, uses_iff_mem]; simp [fieldsL]
+
+/-- a plain field on the left-hand side is used by its comparison, whatever the operator
+and whatever the index path -/
+theorem uses_field_lhs (f : Nat) (ix : List FieldIndex) (op : CmpOp) :
+    usesL f false (.comparison (.field f ix) op) = true := by
+  rw [uses_iff_mem]; simp [fieldsL, fieldsI]
+
+/-- … and no other field is -/
+theorem uses_field_lhs_only (f g : Nat) (ix : List FieldIndex) (op : CmpOp)
+    (h : usesL g false (.comparison (.field f ix) op) = true) : g = f := by
+  rw [uses_iff_mem] at h; simpa [fieldsL, fieldsI] using h
+
 /-! Non-vacuity: a field used only deep inside a nested call inside a quantifier; a field
 used only outside list comparisons; early exit with the flag already set. -/
 example : usesL 7 false
